@@ -747,7 +747,10 @@ class Term(Container):
         for o in self.objects:
             diag_obj, sub_obj = o.diagonalize_fock(target, return_sympy=True)
             diag *= diag_obj
-            if any(k in sub and sub[k] != v for k, v in sub_obj.items()):
+            # the substitutions of different fock matrix elements may
+            # neither contradict each other nor form a chain (f_ij f_jk)
+            if any((k in sub and sub[k] != v) or k in sub.values() or v in sub
+                   for k, v in sub_obj.items()):
                 raise NotImplementedError("Did not implement the case of "
                                           "multiple fock matrix elements with "
                                           f"intersecting indices: {self}")
